@@ -14,7 +14,8 @@ LEVEL_TEXT = ('Static decision by an Andersen-style points-to analysis of the wh
               'body); no global/module/class attribute is written after import; every component a Solver holds is '
               'allocated per Solver and held by no process-wide object; the shared inputs (problem, parameters) are never written by the library; Solve '
               'returns the solver\'s own Solution; a change of process-wide interpreter / numpy / warnings state is '
-              'undone on every exit of the routine that made it.')
+              'undone on every exit of the routine that made it; in the shipped callbacks no index loop over argument data is '
+              'bounded by a size kept in the listener object from another call (a listener shared by two solvers).')
 EXPLANATION = ('Two solver instances can only interfere through an object both can reach. Objects allocated inside '
                'functions are per call; the only objects shared by construction are the singletons enumerated by the '
                'allocation-site abstraction. The check proves that every one of the mutation sites of the library '
@@ -354,10 +355,19 @@ def r12_5(ctx: Ctx, rid: str = 'R12.5', only_modules=None):
     ctx.floor(rid, 'call sites scanned for process-wide state setters', n_calls, 1000 if only_modules is None else 100)
 
 
+def r12_6(ctx: Ctx):
+    """A listener object shared by two solvers: per-run state of the listener used as an index bound for the other
+    solver's data (iva/rules/c13.py: rule_index_bound_provenance)."""
+    from . import c13
+    c13.rule_index_bound_provenance(ctx, 'R12.6')
+
+
 def check(ctx: Ctx):
     for rid, fn in (('R12.1', r12_1), ('R12.2', r12_2), ('R12.3', r12_3), ('R12.4', r12_4), ('R12.5', r12_5)):
         if C.want(ctx, rid):
             fn(ctx)
+    if C.want(ctx, 'R12.6'):
+        r12_6(ctx)
     st = ctx.pta.stats()
     ctx.analysed['mutation_sites_distinct'] = len(C.roles_of(ctx).mutations())
     ctx.assume('external libraries do not retain and later mutate objects passed to them (matplotlib, sklearn, scipy)')
